@@ -201,6 +201,19 @@ def gen_tables() -> str:
         MISSING.append("_FD_PREFIX_RE")
         fd_src = ""
 
+    # _WRAPPER_FLAGS_WITH_ARG: {wrapper: frozenset({...})}
+    wfa_pairs: list[tuple[str, list[str]]] = []
+    v = module_assign(an, "_WRAPPER_FLAGS_WITH_ARG")
+    if isinstance(v, ast.Dict):
+        for k, val in zip(v.keys, v.values):
+            xs = const_strs(val)
+            if isinstance(k, ast.Constant) and isinstance(k.value, str) and xs is not None:
+                wfa_pairs.append((k.value, sorted(set(xs))))
+            else:
+                MISSING.append("_WRAPPER_FLAGS_WITH_ARG entry")
+    else:
+        MISSING.append("_WRAPPER_FLAGS_WITH_ARG")
+
     # arithmetic attribute tuple in _find_cmdsubs_in_arith: `for attr in (...)`
     arith_attrs: list[str] | None = None
     f = find_func(an, "_find_cmdsubs_in_arith")
@@ -313,6 +326,9 @@ def gen_tables() -> str:
         "",
         "/-- `WRAPPER_COMMANDS` (core/allowlists.py), sorted -/",
         "def wrapperCommands : List String := " + lean_list(wrappers),
+        "",
+        "/-- `_WRAPPER_FLAGS_WITH_ARG` (core/analyzer.py): wrapper options whose argument is a separate word -/",
+        "def wrapperFlagsWithArg : List (String × List String) := [" + ", ".join("(%s, %s)" % (lean_str(k), lean_list(xs).replace("\n", "")) for k, xs in wfa_pairs) + "]",
         "",
         "/-- keys of `KNOWN_HANDLERS`: the `COMMANDS` lists of every module in cli/, sorted -/",
         "def handlerCommands : List String := " + lean_list(handler_names),
@@ -512,6 +528,97 @@ def gen_hook() -> str:
     return "\n".join(lines)
 
 
+# ---------------------------------------------------------------- launcher handler tables
+
+HANDLER_SETS = [
+    ("env", "FLAGS_WITH_ARG"), ("xargs", "FLAGS_WITH_ARG"), ("xargs", "UNSAFE_FLAGS"),
+    ("arch", "FLAGS_NO_ARG"), ("arch", "FLAGS_WITH_ARG"), ("arch", "ARCH_FLAGS"),
+    ("caffeinate", "FLAGS_NO_ARG"), ("caffeinate", "FLAGS_WITH_ARG"),
+    ("fd", "EXEC_FLAGS"), ("script", "FLAGS_WITH_ARG"), ("script", "FLAGS_NO_ARG"),
+    ("docker", "EXEC_FLAGS_WITH_ARG"), ("shell", "COMMANDS"),
+]
+HANDLER_STRS = [("docker", "EXEC_SHORT_FLAGS_WITH_ARG")]
+HANDLER_DICTS = [("xargs", "FLAG_CONTEXT"), ("find", "FLAG_CONTEXT"), ("fd", "FLAG_DISPLAY")]
+
+
+def gen_handlers() -> str:
+    out = [
+        "-- GENERATED by harness/gen_tables.py from src/dippy/cli/*.py and core/bash.py. Do not edit.",
+        "namespace Dippy.Generated.H",
+        "",
+    ]
+    for mod, name in HANDLER_SETS:
+        m = parse_file("cli/%s.py" % mod)
+        v = module_assign(m, name)
+        r = const_strs(v) if v is not None else None
+        if r is None:
+            MISSING.append("cli/%s.py:%s" % (mod, name))
+            r = []
+        out.append("/-- `%s` of cli/%s.py, sorted -/" % (name, mod))
+        out.append("def %s_%s : List String := %s" % (mod, name, lean_list(sorted(set(r)))))
+        out.append("")
+    for mod, name in HANDLER_STRS:
+        v = module_assign(parse_file("cli/%s.py" % mod), name)
+        if isinstance(v, ast.Constant) and isinstance(v.value, str):
+            val = v.value
+        else:
+            MISSING.append("cli/%s.py:%s" % (mod, name))
+            val = ""
+        out.append("/-- `%s` of cli/%s.py -/" % (name, mod))
+        out.append("def %s_%s : String := %s" % (mod, name, lean_str(val)))
+        out.append("")
+    for mod, name in HANDLER_DICTS:
+        m = parse_file("cli/%s.py" % mod)
+        v = module_assign(m, name)
+        pairs = []
+        if isinstance(v, ast.Dict) and all(isinstance(k, ast.Constant) and isinstance(x, ast.Constant) for k, x in zip(v.keys, v.values)):
+            pairs = [(k.value, x.value) for k, x in zip(v.keys, v.values)]
+        else:
+            MISSING.append("cli/%s.py:%s" % (mod, name))
+        out.append("/-- `%s` of cli/%s.py -/" % (name, mod))
+        out.append("def %s_%s : List (String × String) := [%s]" % (mod, name, ", ".join("(%s, %s)" % (lean_str(a), lean_str(b)) for a, b in pairs)))
+        out.append("")
+    # core/bash.py: the unquoted-safe characters, the quote replacement, the assignment shape
+    b = parse_file("core/bash.py")
+    an = parse_file("core/analyzer.py")
+    safe_extra = None
+    repl = None
+    f = find_func(b, "bash_quote")
+    if f is not None:
+        for n in ast.walk(f):
+            if isinstance(n, ast.Compare) and len(n.ops) == 1 and isinstance(n.ops[0], ast.In) and isinstance(n.comparators[0], ast.Constant) and isinstance(n.comparators[0].value, str):
+                safe_extra = n.comparators[0].value
+            if isinstance(n, ast.Call) and isinstance(n.func, ast.Attribute) and n.func.attr == "replace" and len(n.args) == 2 and all(isinstance(a, ast.Constant) for a in n.args):
+                repl = (n.args[0].value, n.args[1].value)
+    if safe_extra is None:
+        MISSING.append("bash_quote:safe chars")
+        safe_extra = ""
+    if repl is None:
+        MISSING.append("bash_quote:replace")
+        repl = ("", "")
+
+    def re_src(mod, name):
+        v = module_assign(mod, name)
+        if isinstance(v, ast.Call) and v.args and isinstance(v.args[0], ast.Constant):
+            return v.args[0].value
+        MISSING.append(name)
+        return ""
+
+    out += [
+        "/-- the characters `bash_quote` leaves unquoted besides alphanumerics -/",
+        "def bashSafeExtra : String := " + lean_str(safe_extra),
+        "/-- `s.replace(a, b)` in `bash_quote` -/",
+        "def bashQuoteReplace : String × String := (%s, %s)" % (lean_str(repl[0]), lean_str(repl[1])),
+        "/-- `_ASSIGNMENT_SHAPE` (core/bash.py) and `_ASSIGNMENT_RE` (core/analyzer.py): must be the same expression -/",
+        "def bashAssignShape : String := " + lean_str(re_src(b, "_ASSIGNMENT_SHAPE")),
+        "def analyzerAssignRe : String := " + lean_str(re_src(an, "_ASSIGNMENT_RE")),
+        "",
+        "end Dippy.Generated.H",
+        "",
+    ]
+    return "\n".join(out)
+
+
 def main() -> int:
     changed = []
     files = {
@@ -519,6 +626,7 @@ def main() -> int:
         "Tables.lean": gen_tables(),
         "Parable.lean": gen_parable(),
         "Hook.lean": gen_hook(),
+        "Handlers.lean": gen_handlers(),
     }
     miss = (
         "-- GENERATED. Tables the translator could not find where it expected them.\n"
